@@ -22,6 +22,9 @@ CLAIMED = {
  "C11": ("Unit level: IfFeature.Evaluate against an RPN oracle for a generated catalogue of expressions (689 quick / 2628 thorough texts: ASTs up to 3 binary operators, minimal / full parenthesisation, extra blanks) under all 16 assignments of 4 features (symbolic Bools, every assignment explored), 16 malformed texts must be errors, allow-list / deny-list / all-on FeatureSet with its cache. System level: the real loader is executed inside the interpreter for 10 guardable statement kinds (leaf, container, list, leaf-list, choice, case, uses, augment, refine, anydata) x 2 expressions x allow/deny x 16 list memberships: guarded definition present iff the expression holds and neighbours untouched; 20 deviations (not-supported, add, replace, delete x property) must compile to the same canonical schema dump as the module with the property written inline.",
          NOTE_COMMON + "Outside the claim: expression texts and module shapes are enumerated catalogues (only the feature assignment is symbolic); rpc and notification guards are not in the property's list of guardable statements and are not checked; deviate replace type.",
          "DESIGN.md §2 C11"),
+ "C12": ("The real editor / Selection.beginEdit/endEdit/Delete code runs over two recording reference stores (source and target) on a schema compiled by the real loader; the fault position is a full-width symbolic integer compared with the callback counter, so every position of every callback kind (Child, Next, Field, Choose, BeginEdit, EndEdit) on either side is explored and decided by the solver; 4 tree shapes x pre-populated or empty target x upsert/insert/update/delete x entry at root or container. A monitor over the callback logs asserts: successful Begin count = End count per node and End after Begin, no write after the failing call, the call fails with an error satisfying errors.Is(err, injected), nodes outside the edit get no notification, no panic.",
+         NOTE_COMMON + "Outside the claim: reflection-backed nodes and nodeutil.Basic/Extend dispatch, trigger tables, tree shapes other than the 4 listed, list-entry entry points. Known finding C12-choose-error-swallowed.",
+         "DESIGN.md §2 C12"),
 }
 NA_REASON = "engine under construction; no check registered yet"
 
